@@ -240,7 +240,17 @@ def ev(S, F, x, asg, tabs=None):
             # Option / Result combinators on structured values
             if path.startswith(("core::option::Option", "core::result::Result")) and vals and isinstance(vals[0], tuple):
                 v0 = vals[0]
-                apply = lambda f, a: ("app", f[1], a) if isinstance(f, tuple) and f and f[0] == "fn" else ("app", f, a)
+                def apply(f, a):
+                    if isinstance(f, tuple) and f and f[0] == "closure":
+                        cb_ = F.fn(f[1])
+                        if cb_ is not None and cb_.mir is not None:
+                            S3 = sym.Sym(cb_)
+                            sub3 = dict(asg, params={1: f[2], 2: a}, _depth=asg.get("_depth", 0) + 1)
+                            sub3.pop("subst", None)
+                            return run(S3, F, S3.paths(), sub3, tabs)
+                    if isinstance(f, tuple) and f and f[0] == "fn":
+                        return ("app", f[1], a)
+                    return ("app", f, a)
                 if short == "ok_or" and v0[0] in ("Some", "None"):
                     return ("Ok", v0[1]) if v0[0] == "Some" else ("Err", vals[1])
                 if short == "ok" and v0[0] in ("Ok", "Err"):
@@ -281,6 +291,8 @@ def ev(S, F, x, asg, tabs=None):
             return ("Err", ev(S, F, x[2][0], asg, tabs))
         if x[1] == "tuple":
             return tuple(ev(S, F, y, asg, tabs) for y in x[2])
+        if x[1].startswith("closure:"):
+            return ("closure", x[1][len("closure:"):], tuple(ev(S, F, y, asg, tabs) for y in x[2]))
         if asg.get("symbolic") and x[1].startswith("adt:"):
             return ("adt", x[1][4:]) + tuple(ev(S, F, y, asg, tabs) for y in x[2])
         raise Unknown("aggregate %s" % x[1])
